@@ -256,8 +256,8 @@ impl Prop for Token {
     }
     fn streams(&self) -> Vec<Stream> {
         match self.0 {
-            Which::Invariants => vec![Stream::new("exhaustive", 7 * 15, 7 * 15), Stream::new("random", 32000, 320000), Stream::new("corpus", 64, 64)],
-            Which::Variants => vec![Stream::new("stores", 32000, 320000)],
+            Which::Invariants => vec![Stream::new("exhaustive", 7 * 15, 7 * 15), Stream::new("random", 32000, 1600000), Stream::new("corpus", 64, 64)],
+            Which::Variants => vec![Stream::new("stores", 32000, 1600000)],
         }
     }
     fn floors(&self) -> Vec<(&'static str, u64, u64)> {
